@@ -81,6 +81,77 @@ def g1_unraw(b):
     inv = pow(MONT, -1, P381)
     return (int.from_bytes(b[:48], "little") * inv % P381, int.from_bytes(b[48:96], "little") * inv % P381)
 
+# ---- BLS12-381 G2 (E': y^2 = x^3 + 4(1+u) over Fp2 = Fp[u]/(u^2+1)), input generation only ----
+def f2_add(a, b): return ((a[0] + b[0]) % P381, (a[1] + b[1]) % P381)
+def f2_sub(a, b): return ((a[0] - b[0]) % P381, (a[1] - b[1]) % P381)
+def f2_mul(a, b): return ((a[0] * b[0] - a[1] * b[1]) % P381, (a[0] * b[1] + a[1] * b[0]) % P381)
+def f2_neg(a): return ((-a[0]) % P381, (-a[1]) % P381)
+def f2_inv(a):
+    d = pow((a[0] * a[0] + a[1] * a[1]) % P381, -1, P381)
+    return (a[0] * d % P381, (-a[1]) * d % P381)
+def f2_pow(a, e):
+    r = (1, 0)
+    while e:
+        if e & 1: r = f2_mul(r, a)
+        a = f2_mul(a, a); e >>= 1
+    return r
+def f2_sqrt(a):
+    if a == (0, 0): return (0, 0)
+    a1 = f2_pow(a, (P381 - 3) // 4)
+    alpha = f2_mul(f2_mul(a1, a1), a)
+    x0 = f2_mul(a1, a)
+    if alpha == (P381 - 1, 0): x = f2_mul((0, 1), x0)
+    else: x = f2_mul(f2_pow(f2_add((1, 0), alpha), (P381 - 1) // 2), x0)
+    return x if f2_mul(x, x) == a else None
+B2 = (4, 4)
+def g2_add(P_, Q_):
+    if P_ is None: return Q_
+    if Q_ is None: return P_
+    (x1, y1), (x2, y2) = P_, Q_
+    if x1 == x2:
+        if f2_add(y1, y2) == (0, 0): return None
+        l = f2_mul(f2_mul((3, 0), f2_mul(x1, x1)), f2_inv(f2_mul((2, 0), y1)))
+    else:
+        l = f2_mul(f2_sub(y2, y1), f2_inv(f2_sub(x2, x1)))
+    x3 = f2_sub(f2_sub(f2_mul(l, l), x1), x2)
+    return (x3, f2_sub(f2_mul(l, f2_sub(x1, x3)), y1))
+def g2_mul(k, P_):
+    acc = None
+    while k:
+        if k & 1: acc = g2_add(acc, P_)
+        P_ = g2_add(P_, P_); k >>= 1
+    return acc
+def g2_random_curve_point(rng):
+    while True:
+        x = (rng.randrange(P381), rng.randrange(P381))
+        y = f2_sqrt(f2_add(f2_mul(f2_mul(x, x), x), B2))
+        if y is not None: return (x, y)
+def g2_compress(P_):
+    (x, y) = P_
+    ny = f2_neg(y)
+    largest = (y[1], y[0]) > (ny[1], ny[0])
+    b = bytearray(x[1].to_bytes(48, "big") + x[0].to_bytes(48, "big"))
+    b[0] |= 0x80 | (0x20 if largest else 0)
+    return bytes(b)
+def g2_decompress(b):
+    x = (int.from_bytes(b[48:96], "big"), int.from_bytes(bytes([b[0] & 0x1f]) + b[1:48], "big"))
+    y = f2_sqrt(f2_add(f2_mul(f2_mul(x, x), x), B2))
+    ny = f2_neg(y)
+    largest = (y[1], y[0]) > (ny[1], ny[0])
+    return (x, y if largest == bool(b[0] & 0x20) else ny)
+def g2_specials(rng, valid=None):
+    """96-byte compressed encodings of points on E'(Fp2) outside the order-r subgroup: a random curve point,
+    a point of the cofactor part, and (given a valid subgroup point) that point plus a cofactor point"""
+    out = []
+    Q = g2_random_curve_point(rng)
+    out.append(("G2 point on the curve, not in the subgroup (random)", g2_compress(Q)))
+    T = g2_mul(R381, Q)
+    if T is not None:
+        out.append(("G2 point of the cofactor part, not in the subgroup", g2_compress(T)))
+        if valid is not None:
+            out.append(("valid G2 point + cofactor point, not in the subgroup", g2_compress(g2_add(g2_decompress(valid), T))))
+    return out
+
 def scalar_specials():
     return [("r (non-canonical)", R.to_bytes(32, "little")), ("r+1", (R + 1).to_bytes(32, "little")),
             ("2^256-1", b"\xff" * 32), ("2^255", (1 << 255).to_bytes(32, "little"))]
